@@ -127,6 +127,8 @@ def gen_world(rng: random.Random, tier: str) -> dict:
         # how the user's arrays lie in memory: C order, Fortran order, or a strided view of a larger buffer
         "layout": rng.choices(["C", "F", "view"], weights=[0.7, 0.18, 0.12])[0],
         "dtype": rng.choices(["float64", "float32", "int64", "readonly"], weights=[0.8, 0.08, 0.06, 0.06])[0],
+        "fs_as": rng.choices(["float", "npfloat"], weights=[0.9, 0.1])[0],
+        "datasets_as": rng.choices(["list", "tuple"], weights=[0.9, 0.1])[0],
     }
     if kind == "preger":
         nref = rng.randint(1, min(nch) - 1) if min(nch) > 1 else 1
@@ -134,7 +136,7 @@ def gen_world(rng: random.Random, tier: str) -> dict:
         if rng.random() < 0.2:
             # a different number of reference channels per dataset (the split itself does not require equal counts)
             w["ref_ind"] = [rng.sample(range(c), rng.randint(1, c - 1)) for c in nch]
-        w["ref_as"] = rng.choices(["list", "tuple", "npint"], weights=[0.75, 0.15, 0.10])[0]
+        w["ref_as"] = rng.choices(["list", "tuple", "npint", "nparray"], weights=[0.7, 0.12, 0.09, 0.09])[0]
         if nds >= 2 and rng.random() < 0.10:
             # one reference-index list OBJECT shared by all datasets, whatever their channel counts
             k = rng.randint(1, min(nch) - 1) if min(nch) > 1 else 1
@@ -183,10 +185,15 @@ def build_setup(world, arrays):
     from pyoma2.setup import MultiSetup_PreGER, SingleSetup
 
     fs = int(world["fs"]) if world.get("int_fs") and float(world["fs"]).is_integer() else world["fs"]
+    if world.get("fs_as") == "npfloat" and not isinstance(fs, int):
+        fs = np.float64(fs)
     if world["kind"] == "single":
         return SingleSetup(arrays[0], fs=fs)
     # the user's own list objects are handed over, like the arrays
-    return MultiSetup_PreGER(fs=fs, ref_ind=world["_user_ref"], datasets=world["_user_list"])
+    ds = world["_user_list"]
+    if world.get("datasets_as") == "tuple":
+        ds = tuple(ds)
+    return MultiSetup_PreGER(fs=fs, ref_ind=world["_user_ref"], datasets=ds)
 
 
 # ---------------------------------------------------------------------------------------------
@@ -222,6 +229,8 @@ class Model:
             kw.setdefault("axis", 0)
             if "bp" in kw:
                 kw["bp"] = list(kw["bp"]) if isinstance(kw["bp"], (list, tuple)) else kw["bp"]
+                if op.get("bp_as") == "int":
+                    kw["bp"] = int(kw["bp"][0])
             new = [sps.detrend(d, **kw) for d in self.ds]
             return new, self.fs
         if k == "filter":
@@ -440,6 +449,21 @@ def gen_op(rng, m: Model, swarm, nalg):
         if nalg and rng.random() < 0.35:
             # the same instance added again: the only public way to hand it the setup's current data
             op = {"op": "add", "readd": rng.randrange(nalg)}
+    # unusual but legal FORMS of the same arguments (numpy scalars, alternative spellings, arrays)
+    if k == "decimate" and rng.random() < 0.12:
+        op["q_as"] = "npint"
+    if k == "filter":
+        if "order" in op and rng.random() < 0.1:
+            op["order_as"] = "npint"
+        if "btype" in op and rng.random() < 0.15:
+            op["btype"] = rng.choice({"lowpass": ["low", "lp", "LOWPASS"], "highpass": ["high", "hp", "HighPass"],
+                                      "bandpass": ["band", "bp", "pass"], "bandstop": ["bs", "stop", "bands"]}[op["btype"]])
+        if not isinstance(op["Wn"], list) and "wn_as" not in op and rng.random() < 0.12:
+            op["wn_as"] = "npfloat"
+    if k == "detrend" and isinstance(op.get("kw", {}).get("bp"), list) and rng.random() < 0.4:
+        op["bp_as"] = rng.choice(["nparray", "int"])
+        if op["bp_as"] == "int":
+            op["kw"]["bp"] = op["kw"]["bp"][:1]
     if swarm["faulty"] and k in ("decimate", "detrend", "filter") and rng.random() < swarm["pfault"]:
         op["fault"] = {
             "kind": "sci_exc",
@@ -455,14 +479,24 @@ def gen_op(rng, m: Model, swarm, nalg):
 def _call_real(setup, op):
     k = op["op"]
     if k == "decimate":
-        return setup.decimate_data(q=op["q"], **copy.deepcopy(op.get("kw", {})))
+        q = np.int64(op["q"]) if op.get("q_as") == "npint" else op["q"]
+        return setup.decimate_data(q=q, **copy.deepcopy(op.get("kw", {})))
     if k == "detrend":
-        return setup.detrend_data(**copy.deepcopy(op.get("kw", {})))
+        kw = copy.deepcopy(op.get("kw", {}))
+        if op.get("bp_as") == "nparray":
+            kw["bp"] = np.array(kw["bp"])
+        elif op.get("bp_as") == "int":
+            kw["bp"] = int(kw["bp"][0])
+        return setup.detrend_data(**kw)
     if k == "filter":
         kw = {n: op[n] for n in ("order", "btype") if n in op}
+        if op.get("order_as") == "npint":
+            kw["order"] = np.int64(kw["order"])
         Wn = op["Wn"]
         how = op.get("wn_as", "tuple")
-        if how == "ndarray":
+        if how == "npfloat":
+            arg = np.float64(Wn)
+        elif how == "ndarray":
             arg = np.array(Wn, dtype=float)
         elif how == "list":
             arg = list(Wn) if isinstance(Wn, list) else Wn
@@ -509,6 +543,8 @@ def run_case(seed, tier="quick", case=None, known=()):
         user_ref = [tuple(r) for r in user_ref]
     elif user_ref is not None and world.get("ref_as") == "npint":
         user_ref = [[np.int64(c) for c in r] for r in user_ref]
+    elif user_ref is not None and world.get("ref_as") == "nparray":
+        user_ref = [np.array(r, dtype=int) for r in user_ref]
     if user_ref is not None and world.get("alias01") and len(user_ref) >= 2:
         user_ref[1] = user_ref[0]
     if user_ref is not None and world.get("share_ref_obj") and all(list(map(int, r)) == list(map(int, user_ref[0])) for r in user_ref):
